@@ -196,6 +196,9 @@ func (u *SPDX23) packageToNode(p *spdx23.Package) *sbom.Node {
 	if len(p.PackageExternalReferences) > 0 {
 		n.ExternalReferences = []*sbom.ExternalReference{}
 		for _, r := range p.PackageExternalReferences {
+			if r == nil {
+				continue
+			}
 			extRefType, isIdentifier, err := u.extRefToProtobomEnum(r)
 			if err != nil {
 				// TODO(degradation): Invalid external reference
